@@ -80,3 +80,14 @@ Section Oracles.
 End Oracles.
 
 Print Assumptions src_v1_decode_spec.
+
+(* ---------- the version-1 DecodeGeneric: Decode into generic claims of its own, nothing before and nothing after -
+   it refuses exactly when that Decode refuses, with its error (whatever the observations of the claims are) ---------- *)
+Lemma src_v1_decode_generic (V : Type) (vnil : V) ds uh isA isC isO isS isU
+    (iss : V -> string) (pre : V -> list Z) (ver : V -> string -> string -> bool) (unm : V -> string -> option string) halg htyp (tok : string) :
+  V1.DecodeGeneric V vnil ds uh isA isC isO isS isU iss pre ver unm halg htyp tok
+  = (vnil, V1.Decode V vnil ds uh isA isC isO isS isU halg htyp (iss vnil) (pre vnil) (ver vnil) (unm vnil) tok).
+Proof.
+  unfold V1.DecodeGeneric. cbv zeta.
+  destruct (V1.Decode V vnil ds uh isA isC isO isS isU halg htyp (iss vnil) (pre vnil) (ver vnil) (unm vnil) tok); reflexivity.
+Qed.
